@@ -5,6 +5,7 @@
 package main
 
 import (
+	"fmt"
 	"io"
 	"sync"
 
@@ -15,6 +16,7 @@ func main() { hx.Main(run) }
 
 func run(c *hx.Ctx) {
 	c.Imports = "Lib.Chunk Frame.Model Frame.Run"
+	c.ShardSize = 100
 	switch c.Prop {
 	case "C07":
 		c07(c)
@@ -164,6 +166,24 @@ func chunksFor(c *hx.Ctx, n int) ([]int, string) {
 		}
 		return ch, "random"
 	}
+}
+
+// natList prints a chunk list; a run of equal sizes is printed as a repeat
+// expression (Coq parses long literal lists slowly).
+func natList(l []int) string {
+	if len(l) > 4 {
+		same := true
+		for _, x := range l {
+			if x != l[0] {
+				same = false
+				break
+			}
+		}
+		if same {
+			return fmt.Sprintf("(repeat %d%%nat %d%%nat)", l[0], len(l))
+		}
+	}
+	return hx.NatList(l)
 }
 
 func u32le(v uint32) []byte { return []byte{byte(v), byte(v >> 8), byte(v >> 16), byte(v >> 24)} }
